@@ -2,6 +2,7 @@ package types
 
 import (
 	"bytes"
+	"cmp"
 	"encoding/json"
 	"iter"
 	"maps"
@@ -142,13 +143,31 @@ func (s *Set) UnmarshalJSON(b []byte) error {
 	return nil
 }
 
+// orderedKeys returns the map keys in the order in which re-inserting the elements reproduces the same map: ascending,
+// except that elements whose open-addressing probe wrapped around past the maximum hash value come last. (Listing a
+// wrapped element first would let it take the slot of the element it collided with, so the order would flip on every
+// marshal/unmarshal round trip.)
+func (s Set) orderedKeys() []uint64 {
+	keys := slices.Collect(maps.Keys(s.s))
+	slices.SortFunc(keys, func(a, b uint64) int {
+		wa, wb := a < s.s[a].hash(), b < s.s[b].hash()
+		if wa != wb {
+			if wb {
+				return -1
+			}
+			return 1
+		}
+		return cmp.Compare(a, b)
+	})
+	return keys
+}
+
 // MarshalJSON marshals the Set into JSON.
 // Set elements are rendered in hash order, which may differ from the original order.
 func (s Set) MarshalJSON() ([]byte, error) {
 	w := &bytes.Buffer{}
 	w.WriteByte('[')
-	orderedKeys := slices.Collect(maps.Keys(s.s))
-	slices.Sort(orderedKeys)
+	orderedKeys := s.orderedKeys()
 	for i, k := range orderedKeys {
 		if i != 0 {
 			w.WriteByte(',')
@@ -171,8 +190,7 @@ func (s Set) String() string { return string(s.MarshalCedar()) }
 func (s Set) MarshalCedar() []byte {
 	var sb bytes.Buffer
 	sb.WriteRune('[')
-	orderedKeys := slices.Collect(maps.Keys(s.s))
-	slices.Sort(orderedKeys)
+	orderedKeys := s.orderedKeys()
 	for i, k := range orderedKeys {
 		if i != 0 {
 			sb.WriteString(", ")
